@@ -18,6 +18,10 @@ number of days between the two instants plus one: every step advances by at leas
 `holder._set(sub_period, array)` inside the two loops cannot raise (the sub-period has the
 variable's definition unit and size 1, the length was checked on entry, the second dtype
 conversion is idempotent), so the loops are written with the pure `sput`.
+Not mirrored (outside the claim domain, never generated): when `sub.offset(1)` overflows year 9999
+in the middle of the dispatch loop the code has already written some pieces; the model refuses the
+whole input and leaves the store unchanged. `Simulation.set_input`'s `variable.end` shortcut,
+neutralised variables, string inputs and on-disk storage are not modelled.
 -/
 namespace OFCore
 
